@@ -22,8 +22,24 @@ func prioStr(dep int, excl bool, w int) string {
 }
 
 func gen(r *vh.Rand) string {
+	if r.Chance(1, 2) {
+		return "W;" + genSeq(r, true)
+	}
+	return genSeq(r, false)
+}
+
+// wire: frames that end the connection (stream id 0, RST of an idle stream, bad HEADERS ids) are rare,
+// so that most sequences run to their end.
+func genSeq(r *vh.Rand, wire bool) string {
 	maxStreams := r.Range(2, 12)
 	nsteps := r.Range(4, 40)
+	if vh.Thorough && r.Chance(1, 4) {
+		maxStreams = r.Range(12, 40)
+		nsteps = r.Range(40, 120)
+	}
+	if r.Chance(1, 10) {
+		return genChain(r)
+	}
 	var ids []int   // every id created so far
 	open := map[int]bool{}
 	next := 1
@@ -72,7 +88,7 @@ func gen(r *vh.Rand) string {
 	for len(ops) < nsteps {
 		k := r.Intn(10)
 		switch {
-		case len(ids) >= 2 && k < 3 && r.Chance(1, 8):
+		case len(ids) >= 2 && k < 3 && r.Chance(1, map[bool]int{false: 8, true: 30}[wire]):
 			// HEADERS that must not create a stream: even id, id below maxStreamID, open stream (trailers), 0
 			bad := []int{2 * r.Range(1, 12), ids[r.Intn(len(ids))], 0, next - 2}[r.Intn(4)]
 			ops = append(ops, fmt.Sprintf("n%d:%s", bad, prioStr(pickDep(bad), r.Chance(2, 5), pickW())))
@@ -97,7 +113,7 @@ func gen(r *vh.Rand) string {
 			}
 		default:
 			var id int
-			switch r.Intn(10) {
+			switch r.Intn(map[bool]int{false: 10, true: 60}[wire]) {
 			case 0:
 				id = next // idle
 			case 1:
@@ -108,6 +124,44 @@ func gen(r *vh.Rand) string {
 			ops = append(ops, fmt.Sprintf("p%d:%s", id, prioStr(pickDep(id), r.Chance(2, 5), pickW())))
 		}
 	}
+	return strings.Join(ops, ";")
+}
+
+// genChain builds a long dependency chain (each stream under the previous one, or older under newer),
+// closes some interior nodes, then re-parents the root under the leaf / an interior node under a
+// descendant, exclusive or not: the ancestor walk has to cross the whole chain and closed streams.
+func genChain(r *vh.Rand) string {
+	n := r.Range(6, 14)
+	var ops []string
+	ids := make([]int, n)
+	for i := range ids {
+		ids[i] = 2*i + 1
+	}
+	up := r.Bool() // up: i depends on i-1 (HEADERS priority); else built afterwards with PRIORITY, older under newer
+	for i, id := range ids {
+		if up && i > 0 {
+			ops = append(ops, fmt.Sprintf("n%d:%s", id, prioStr(ids[i-1], r.Chance(1, 3), r.Intn(256))))
+		} else {
+			ops = append(ops, fmt.Sprintf("n%d", id))
+		}
+	}
+	if !up {
+		for i := 0; i+1 < n; i++ {
+			ops = append(ops, fmt.Sprintf("p%d:%s", ids[i], prioStr(ids[i+1], r.Chance(1, 3), r.Intn(256))))
+		}
+	}
+	for k := r.Intn(4); k > 0; k-- {
+		ops = append(ops, fmt.Sprintf("c%d", ids[r.Range(1, n-2)]))
+	}
+	for k := r.Range(1, 4); k > 0; k-- {
+		a, b := ids[r.Intn(n)], ids[r.Intn(n)]
+		ops = append(ops, fmt.Sprintf("p%d:%s", a, prioStr(b, r.Chance(1, 2), r.Intn(256))))
+	}
+	root, leaf := ids[0], ids[n-1]
+	if !up {
+		root, leaf = leaf, root
+	}
+	ops = append(ops, fmt.Sprintf("p%d:%s", root, prioStr(leaf, r.Chance(1, 2), 7)))
 	return strings.Join(ops, ";")
 }
 
@@ -127,6 +181,11 @@ func parsePrio(s string) (p bfe_http2.PriorityParam, ok bool) {
 func execSeq(op string) string {
 	t := bfe_http2.NewVerifPrioTree() // created on this goroutine: it is the connection's serve goroutine
 	defer t.Done()
+	wire := strings.HasPrefix(op, "W;")
+	if wire {
+		op = op[2:]
+		t.WireStart()
+	}
 	var out []string
 	for _, s := range strings.Split(op, ";") {
 		if len(s) < 2 {
@@ -139,7 +198,11 @@ func execSeq(op string) string {
 			if err != nil {
 				return "bad-op"
 			}
-			t.Close(uint32(id))
+			if wire {
+				t.WireReset(uint32(id))
+			} else {
+				t.Close(uint32(id))
+			}
 		case 'n', 'p':
 			var p bfe_http2.PriorityParam
 			has := false
@@ -156,18 +219,25 @@ func execSeq(op string) string {
 			if err != nil {
 				return "bad-op"
 			}
-			if s[0] == 'n' {
+			switch {
+			case s[0] == 'n' && wire:
+				t.WireOpen(uint32(id), has, p) // bytes -> Framer (ReadMetaHeaders) -> processFrameFromReader
+			case s[0] == 'n':
 				t.Open(uint32(id), has, p) // the REAL serverConn.processHeaders
-			} else {
-				if !has {
-					return "bad-op"
-				}
+			case !has:
+				return "bad-op"
+			case wire:
+				t.WirePriority(uint32(id), p)
+			default:
 				t.Priority(uint32(id), p)
 			}
 		default:
 			return "bad-op"
 		}
 		out = append(out, t.Dump())
+		if wire && t.ReaderGone() {
+			break // terminal read error: the connection reads no further frame
+		}
 		if t.HasCycle() {
 			// stop here: the next ancestor walk of the real code would not return
 			break
@@ -181,7 +251,8 @@ func exec(op string) string {
 }
 
 func main() {
-	vh.Pre = func(emit func(string), thorough bool) {
+	vh.Pre = func(emit0 func(string), thorough bool) {
+		emit := func(op string) { emit0(op); emit0("W;" + op) }
 		for _, sh := range []string{"n1;n3;n5", "n1;n3:1s1;n5:3s1", "n1;n3:1s1;n5:1s1;c1", "n1;n3:1s1;n5:3s1;c3"} {
 			for _, dep := range []int{0, 1, 3, 5, 7, 9} {
 				for _, e := range []bool{false, true} {
